@@ -229,9 +229,10 @@ func harnesses(r *fw.Run) []fw.HarnessSpec {
 	subs := []*uint32{nil, u32(0), u32(1), u32(1<<32 - 1)}
 	nets := []*int32{nil, i32(wallet.TestnetGlobalID), i32(0)}
 	wcs := []int{0, -1, 1}
+	nSeeds := r.Pick(4, 24)
 
 	add("address-derivation", 0, func(c *enum.Ctx) {
-		p := params{ver: allVersions[c.ChooseFree(len(allVersions))], seed: c.ChooseFree(4), wc: wcs[c.ChooseFree(3)], sub: subs[c.ChooseFree(4)], network: nets[c.ChooseFree(3)]}
+		p := params{ver: allVersions[c.ChooseFree(len(allVersions))], seed: c.ChooseFree(nSeeds), wc: wcs[c.ChooseFree(3)], sub: subs[c.ChooseFree(4)], network: nets[c.ChooseFree(3)]}
 		c.Case([]byte(fmt.Sprintf("%+v/%v/%v", p, deref(p.sub), derefI(p.network))), true)
 		c.Sample(map[string]any{"version": p.ver.ToString(), "key_seed": p.seed, "workchain": p.wc, "sub_wallet": deref(p.sub), "network": derefI(p.network)})
 		c.Label("%s key=%d wc=%d sub=%v net=%v", p.ver.ToString(), p.seed, p.wc, deref(p.sub), derefI(p.network))
@@ -431,7 +432,7 @@ func harnesses(r *fw.Run) []fw.HarnessSpec {
 		})
 	})
 
-	add("confirmation-histories", 2, func(c *enum.Ctx) {
+	add("confirmation-histories", r.Pick(2, 4), func(c *enum.Ctx) {
 		ver := []wallet.Version{wallet.V4R2, wallet.V5R1, wallet.V3R2}[c.ChooseFree(3)]
 		waiting := []time.Duration{time.Second, 0}[c.ChooseFree(2)]
 		sendFails := c.Choose(2) == 1
